@@ -114,7 +114,12 @@ impl StopController {
                     let state2 = dfa.transition(state, b);
                     // println!("state: {:?} -{:?}-> {:?}", state, b as char, state2);
                     state = state2;
-                    assert!(!state.is_dead());
+                    if state.is_dead() {
+                        // a byte that no text can contain (invalid UTF-8): no stop
+                        // sequence continues through it, start searching afresh
+                        state = rx.initial_state;
+                        continue;
+                    }
                     if state.has_lowest_match() {
                         self.is_stopped = true;
                         rx.state = state;
